@@ -69,7 +69,7 @@ def make_cases(rng, tier, n):
                 ops.append(("rm", p))
         # else: the workspace stays as committed
         ops.append(("checkout", "c", False, []))
-        if rng.random() < 0.4:
+        if rng.random() < 0.4 or i % 5 == 2:
             ops.append(("checkout", "c", False, []))       # a retry must not succeed either
         c["ops"] = ops
         c["kind"] = kind
@@ -93,10 +93,27 @@ def oracle(run):
         referenced |= s1eval.reachable(steps[0]["snap"], d)
     hit = corrupted & referenced
     prev = steps[1]["snap"]
+    dud_placed = {}          # regular files that an earlier `dud checkout` (failed or not) put into the workspace
     for st in steps[2:]:
+        ws_now_, _ = s1eval.parse_snap(st["snap"])
         if st["op"][0] != "checkout":
+            for p_ in list(dud_placed):
+                if ws_now_.get(p_) != dud_placed[p_]:
+                    del dud_placed[p_]          # replaced or removed by the user since
             prev = st["snap"]
             continue
+        ws_prev_, _ = s1eval.parse_snap(prev)
+        earlier = dict(dud_placed)
+        for p_, val_ in ws_now_.items():
+            if val_[0] == "f" and ws_prev_.get(p_) != val_:
+                dud_placed[p_] = val_
+        if st["rc"] == 0 and not st["op"][3]:
+            # success, with bytes in place that an EARLIER invocation of dud put there and that do not hash to the recorded checksum
+            stale = [p_ for p_, val_ in earlier.items() if ws_now_.get(p_) == val_ and p_ in committed and committed[p_][0] == "f"
+                     and committed[p_][1] != val_[1]]
+            if stale:
+                v.append(("success-over-own-bad-copy", "checkout --copy exited 0 while %s, placed by an earlier (failed) `dud checkout --copy`, holds bytes whose "
+                          "digest differs from the recorded checksum" % stale[:3]))
         if hit and st["rc"] == 0:
             # the files checkout has to produce from a corrupted object: committed with a digest in `hit`, and absent or a link now
             ws_prev, _ = s1eval.parse_snap(prev)
